@@ -188,6 +188,7 @@ def execute(scn):
     qacc_in = ((qv1.astype(np.float64) - fwd["qvel"].astype(np.float64)) / H).astype(np.float32)
     util.set_field(dB.qacc, qacc_in)
   dB.qfrc_inverse.fill_(np.nan)
+  dB.qfrc_constraint.fill_(np.nan)  # inverse() must recompute it from qacc, not reuse forward's
   mjw.inverse(m, dB)
   inv = {k: getattr(dB, k).numpy().copy() for k in ("qfrc_inverse", "qfrc_constraint", "qacc")}
 
